@@ -4,6 +4,7 @@ import common
 from common import show_floats, show_ints, fbits, outcome
 import tprog, gen_dag, gen_ops
 
+tprog.LAYOUTS = True      # leaves are handed over in C / Fortran / strided / negative-stride / offset / transposed layouts
 PROP = 'C06'
 LEAN_TARGETS = ['Props.C06']
 REQUIRED_THEOREMS = ['Props.C06.conv_out_size', 'Props.C06.conv1d_is_cross_correlation', 'Props.C06.same_preserves_length',
